@@ -28,6 +28,15 @@ ENDPOINTS = [
     dict(endpoint="v1.cs.configs.delete", method="DELETE", path=V1 + "/cs/configs", op="write", nsparam="tenant", query={"group": "g", "dataId": "{did}"}),
     dict(endpoint="v1.config.history", method="GET", path=V1 + "/config/history", op="read", nsparam="tenant", query={"group": "g", "dataId": "{did}", "pageNo": "1", "pageSize": "10"}),
     dict(endpoint="v1.config.download", method="GET", path=V1 + "/config/download", op="read", nsparam="tenant", query={}),
+    # download by keys: the namespace is named inside every key of the JSON list
+    dict(endpoint="v2.config.download.bykeys", method="POST", path=V2 + "/config/download", op="read", nsparam="tenant", json_list={"group": "g", "dataId": "{did}"}),
+    dict(endpoint="v1.config.download.bykeys", method="POST", path=V1 + "/config/download", op="read", nsparam="tenant", json_list={"group": "g", "dataId": "{did}"}),
+    # import of an archive (the public namespace's config): the target namespace is named by the `tenant` HEADER;
+    # a `tenant` field of the upload form must not lead anywhere else
+    dict(endpoint="v2.config.import.header", method="POST", path=V2 + "/config/import", op="write", nsparam="tenant", nsheader=True, multipart={}),
+    dict(endpoint="v1.config.import.header", method="POST", path=V1 + "/config/import", op="write", nsparam="tenant", nsheader=True, multipart={}),
+    dict(endpoint="v2.config.import.form", method="POST", path=V2 + "/config/import", op="write", nsparam="tenant", nsform=True, multipart={}),
+    dict(endpoint="v1.config.import.form", method="POST", path=V1 + "/config/import", op="write", nsparam="tenant", nsform=True, multipart={}),
     dict(endpoint="v2.service.list", method="GET", path=V2 + "/service/list", op="list", nsparam="namespaceId", query={"pageNo": "1", "pageSize": "100"}),
     dict(endpoint="v2.instance.list", method="GET", path=V2 + "/instance/list", op="read", nsparam="namespaceId", query={"serviceName": "{svc}", "groupName": "DEFAULT_GROUP"}),
     dict(endpoint="v2.instance.add", method="POST", path=V2 + "/instance/add", op="write", nsparam="namespaceId", json={"serviceName": "{svc}", "groupName": "DEFAULT_GROUP", "ip": "10.7.7.7", "port": 7777, "ephemeral": True}),
@@ -69,6 +78,21 @@ def instantiate(ep, combo, i):
     r = dict(id=i, endpoint=ep["endpoint"], method=ep["method"], path=ep["path"], op=ep["op"], ns=ns, spelling=spelling, priv=combo["priv"])
     q, j, f = fill(ep.get("query")), (fill(ep["json"]) if "json" in ep else None), (fill(ep["form"]) if "form" in ep else None)
     nsval = {"explicit": ns, "omitted": None, "empty": "", "public": "public"}[spelling]
+    if "json_list" in ep:
+        item = fill(ep["json_list"])
+        if nsval is not None:
+            item[ep["nsparam"]] = nsval
+        r["query"], r["json"], r["form"] = q, [item], None
+        return r
+    if "multipart" in ep:
+        r["multipart"], r["headers"] = {}, {}
+        if nsval is not None:
+            if ep.get("nsheader"):
+                r["headers"][ep["nsparam"]] = nsval
+            else:
+                r["multipart"][ep["nsparam"]] = nsval
+        r["query"], r["json"], r["form"] = q, None, None
+        return r
     if ep["nsparam"] and nsval is not None:
         if j is not None:
             j[ep["nsparam"]] = nsval
